@@ -2,7 +2,7 @@
 //! coefficients (replication verified by a noise-free decryption), noise bounds, exact torus helpers.
 
 use poulpy_core::layouts::{
-    Base2K, Degree, GLWE, GLWEPlaintext, GLWESecret, GLWESecretPrepared, GLWESecretPreparedFactory, LWE, LWEInfos, LWEPlaintext,
+    Base2K, Degree, GLWE, GLWEPlaintext, GLWESecret, GLWESecretPrepared, GLWESecretPreparedFactory, LWE, LWEPlaintext,
     LWESecret, Rank, TorusPrecision,
 };
 use poulpy_core::{GLWEDecrypt, ScratchTakeCore};
@@ -42,12 +42,23 @@ pub fn seed_of(tag: u64, i: u64) -> [u8; 32] {
     if i == 0 {
         return [0u8; 32];
     }
-    Rng::new(0x5EED, tag.wrapping_mul(1_000_003).wrapping_add(i)).seed32()
+    Rng::new(0x5EED_u64.wrapping_add(tag << 48), i).seed32()
 }
 
-/// Runs `f` with a scratch arena of at least `bytes` bytes pre-filled with garbage pattern `which`.
+/// Slack added to every companion scratch query: exact-size scratch is the business of C12; `glwe_decrypt_tmp_bytes`
+/// under-reports on NTT120 for one-limb ciphertexts (it budgets vec_znx_normalize_tmp_bytes = 24 N bytes for a call to
+/// vec_znx_big_normalize, which needs 48 N there), which would otherwise mask every C01/C06/C19 verdict on that backend.
+pub const SCRATCH_SLACK: usize = 4096;
+
+/// SCRATCH_SLACK unless the experiment switch VERIF_ENC_SLACK=<bytes> overrides it (0 = exactly the companion query)
+pub fn scratch_slack() -> usize {
+    static SLACK: std::sync::OnceLock<usize> = std::sync::OnceLock::new();
+    *SLACK.get_or_init(|| std::env::var("VERIF_ENC_SLACK").ok().and_then(|s| s.parse().ok()).unwrap_or(SCRATCH_SLACK))
+}
+
+/// Runs `f` with a scratch arena of `bytes` + SCRATCH_SLACK bytes pre-filled with garbage pattern `which`.
 pub fn with_scratch<B: Bk, T>(bytes: usize, which: usize, f: impl FnOnce(&mut Scratch<B>) -> T) -> T {
-    let bytes = bytes.div_ceil(64) * 64 + 64;
+    let bytes = bytes.div_ceil(64) * 64 + scratch_slack();
     let mut buf = alloc_aligned::<u8>(bytes);
     garbage(&mut buf, which);
     f(B::scratch_from_bytes(&mut buf))
